@@ -92,6 +92,22 @@ def gen(rng, seed):
             p.sink(f'k{i}', [{'pub': f'a{i}', 'form': scenarios.choose_form(rng, pub[f'a{i}'])}], {'proc_ms': rng.choice([[0], [30], [0, 200]])})
     elif fam in ('tee_rejoin', 'tee_rejoin3'):
         ins = []
+        tee = 'src'
+        if rng.random() < 0.35:
+            # a trunk filter BEFORE the tee: it is on no rejoined branch, so it may skip frames (id gaps reach both branches alike)
+            tb = relay_beh(st, True)
+            for k_ in ('add', 'drop', 'add_mod', 'rename'):
+                tb.pop(k_, None)
+            if tb.get('ret') == 'empty_on':
+                tb.pop('ret'); tb.pop('empty_mod')
+            if not tb.get('skip'):
+                tb['skip'] = rng.choice([{'list': [2]}, {'mod': 3, 'rem': [1]}, {'list': [0, 1]}])
+                feats.add('mid-chain-none')
+            p.relay('t0', [{'pub': 'src', 'form': 'all'}], tb)
+            pub['t0'] = [t for t in st if not t.startswith('_')]
+            st = pub['t0']
+            tee = 't0'
+            feats.add('trunk-skips-before-tee')
         for i in range(3 if fam == 'tee_rejoin3' else 2):
             form = scenarios.choose_form(rng, st)
             tin = scenarios.dst_topics(form, st)
@@ -102,7 +118,7 @@ def gen(rng, seed):
                 beh.pop('ret')
                 beh.pop('empty_mod')
             beh['rename'] = {t: f'{t}_b{i}' for t in tin}
-            p.relay(f'b{i}', [{'pub': 'src', 'form': form}], beh)
+            p.relay(f'b{i}', [{'pub': tee, 'form': form}], beh)
             pub[f'b{i}'] = scenarios.relay_out_topics(beh, tin)
             if pub[f'b{i}']:
                 ins.append({'pub': f'b{i}', 'form': rng.choice(['all', [(t, t) for t in pub[f'b{i}']]])})
